@@ -34,6 +34,8 @@ CONSTANTS N,        \* goroutines 1..N
           Ops,      \* operations the goroutines choose from (subset of OpNames)
           Variant,  \* "ok" or one of the hidden-write variants
           MaxPar,   \* at most this many calls in flight (generation: schedule shapes)
+          MaxOps,   \* generation: at most this many different operations in one behaviour (0 = any);
+                    \* 1 = the same call hammered from all goroutines, 2 = a pair of operations
           Gen       \* TRUE: record the schedule and emit it
 
 ASSUME Ops \subseteq OpNames /\ Variant \in Variants /\ N >= 1 /\ K >= 1
@@ -75,8 +77,11 @@ CurFp(g)   == FpTab[CurOp(g)]
 InFlight   == Cardinality({g \in G : Running(g)})
 Log(e)     == sched' = IF Gen THEN Append(sched, e) ELSE sched
 
+UsedOps == UNION { { prog[g][i] : i \in 1..Len(prog[g]) } : g \in G }
+
 Start(g, op) ==
   /\ ~Running(g) /\ Len(prog[g]) < K /\ InFlight < MaxPar
+  /\ MaxOps = 0 \/ Cardinality(UsedOps \cup {op}) <= MaxOps
   /\ prog' = [prog EXCEPT ![g] = Append(@, op)]
   /\ pc' = [pc EXCEPT ![g] = 1]
   \* the call allocates its private locations
@@ -151,7 +156,7 @@ Done == \A g \in G : ~Running(g) /\ Len(prog[g]) = K
 \* generation: one case per behaviour, with the model's own verdict on it (all results equal the
 \* run-alone results; shared locations unchanged at the end)
 Emit == (Gen /\ Done) =>
-          PrintT(<<"CASE", ToJson([n |-> N, k |-> K, maxpar |-> MaxPar,
+          PrintT(<<"CASE", ToJson([n |-> N, k |-> K, maxpar |-> MaxPar, maxops |-> MaxOps,
                                    prog |-> prog, sched |-> sched,
                                    equiv |-> SeqEquiv, unchanged |-> SharedUnchanged])>>)
 =============================================================================
